@@ -109,6 +109,9 @@ def pc_n(n):
     """
     
     n = ensure_numpy(n)
+    if n.dtype.kind in "iu":
+        # n*(n-1) overflows narrow integer dtypes (e.g. int32 counts above 46340)
+        n = n.astype(float)
     N = np.sum(n)
     return np.sum(n * (n - 1)) / (N * (N - 1))
 
@@ -265,6 +268,10 @@ def pc_conditional(df, by, on, group_weights=None):
 
 def varpc_n(n):
     "Variance estimator for Simpson's index"
+    n = np.asarray(n)
+    if n.dtype.kind in "iu":
+        # n*(n-1)*(n-2) overflows narrow integer dtypes
+        n = n.astype(float)
     N = np.sum(n)
     p2_hat = np.sum(n * (n - 1)) / (N * (N - 1))
     p3_hat = np.sum(n * (n - 1) * (n - 2)) / (N * (N - 1) * (N - 2))
